@@ -18,7 +18,8 @@ TYPES = [t.name for t in DeviceType]
 DIRS = ["SHUTTER_STOP", "SHUTTER_UP", "SHUTTER_DOWN"]
 NAME_CHARS = ["abcXYZ 09_", "אבגדה ", "éüñß", "😀🚀", "aé😀א",
               "e\u0301a\u0308\u2126\u212b\u1100\u1161\ufb01",        # well-formed UTF-8 that is not in NFC / NFKC form: the name is the device's, untouched
-              "\u200e\u00a0\t~\x7f\u3000"]                                 # marks, no-break and ideographic spaces, controls
+              "\u200e\u00a0\t~\x7f\u3000",                                # marks, no-break and ideographic spaces, controls
+              "\ufeffab\ufeff"]                                              # a byte order mark is a character of the name like any other
 
 
 def show(dev):
